@@ -22,10 +22,10 @@ func init() {
 		Title: "No panic, no hang: schemas and inputs are untrusted data",
 		Explanation: "Closed inventory of panic-capable constructs in repository code reachable (VTA call graph plus explicit reflection edges: every function value registered in a built-in CustomFuncs map literal is a callee of the reflect.Value.Call sites) from NewSchema, (*schema).NewTransform, (*transform).Read/RawRecord and rawRecord.Raw/Checksum; every construct of a kind is enumerated from SSA and must be discharged mechanically, be a reviewed (argued) entry keyed by function and caller, or be a recorded finding. " +
 			"K1 every explicit panic, one obligation per (panic site, call site of its function): the callers must establish the negation of the panic's guard (dominating branch facts, predicate summaries, up to 3 call levels; comparisons in linear normal form, so `n := len(s)-1; n < 0` is `len(s) < 1`; a guard that is not a plain fact about the parameters - a phi such as an optional variadic index, a range predicate, a disjunction - is specialised to the arguments of the call and refuted disjunct by disjunct; a fact read before a dominating assignment of the guarded field is carried across it by evaluating later loads to the assigned value), otherwise the pair must be a reviewed entry (a mechanically discharged call site keeps its slot of the reviewed entry; a guard computed by a `v, ok :=` helper is named by the helper's deciding branch); " +
-			"K2 every call into package reflect is classified (closed table of total operations; anything else needs its documented precondition): Kind-restricted accessors need a dominating Kind() test on the same value (also established by all callers), Type.Elem() needs a static type or the IsVariadic && index == NumIn()-1 guard, signature accessors need Kind()==Func, In/Out need an index bound, Value.Call needs statically conforming arguments, FieldByName/Elem/Int chains are evaluated on the struct definition of the toolchain in use; " +
+			"K2 every call into package reflect is classified (closed table of total operations; anything else needs its documented precondition): Kind-restricted accessors need a dominating Kind() test on the same value (also established by all callers), Type.Elem() needs a static type or the IsVariadic && index == NumIn()-1 guard, signature accessors need Kind()==Func, In/Out need an index bound (also through a clamp: a joined variable is decided per incoming branch), Value.Call needs statically conforming arguments, FieldByName/Elem/Int chains are evaluated on the struct definition of the toolchain in use; " +
 			"K3 every type assertion without comma-ok: dominating type switch / comma-ok / Kind() / IsErrX-style predicate on the same value (interprocedurally), or a closed set of dynamic-type sources (MakeInterface sites, sync.Pool New/Put, LoadingCache loaders, results of repository functions), or the ValidateSchema/CreateFormatReader pair of one FileFormat; " +
-			"K4 every call of an evaluating function of the xpath engine (NodeIterator.MoveNext, Expr.Evaluate, ...; closed classification of the xpath API used) must be covered by a deferred recover on every call chain from the entry points; " +
-			"K5 every constant index into a slice/string and every dereference of an optional (pointer-to-scalar) field of a declaration struct: dominating length/nil guard, a store-guard invariant of a discriminator field (kind == K only stored under field != nil), or the constraint (minLength/minItems/required) read back from the JSONSchema* constant the declaration was validated against (path derived from json tags); plus a table of declaration fields whose JSON-schema bound guards progress (rows >= 1, ...) and presence (file_declaration, FINAL_OUTPUT); " +
+			"K4 every call of an evaluating function of the xpath engine (NodeIterator.MoveNext, Expr.Evaluate, ...; closed classification of the xpath API used) must be covered by a deferred recover on every call chain from the entry points (a site inside an iterator closure or unexported helper that only exported functions invoke is one obligation per such exported function); " +
+			"K5 every constant index into a slice/string and every dereference of an optional (pointer-to-scalar) field of a declaration struct: dominating length/nil guard, a store-guard invariant of a discriminator field (kind == K only stored under field != nil; the kind test may sit in the callers, in a dispatch table or in a selector function returning the evaluator as closure/bound method), or the constraint (minLength/minItems/required) read back from the JSONSchema* constant the declaration was validated against (path derived from json tags); plus a table of declaration fields whose JSON-schema bound guards progress (rows >= 1, ...) and presence (file_declaration, FINAL_OUTPUT); " +
 			"K6 encoding/json token kinds are closed: no repository function calls Decoder.UseNumber, and every json.Decoder created in reachable repository code is confined to an unexported field that is only used as the receiver of Token/More/Decode/Buffered/InputOffset (so no other code can switch it to json.Number); the assertions on the tokens are K3 obligations; " +
 			"K7 every cycle of repository functions in the load set that contains the template-expansion edge passes through a rejecting duplicate test on the reference stack (must-pass on every path from entry to the recursive call).",
 		NotDecided: "termination of the reader loops (progress over input length), nil dereferences of struct pointers and index/slice expressions with non-constant operands (value-dependent), integer overflow, panics inside third-party decoders (encoding/xml, encoding/csv, goja, gojsonschema) other than the xpath engine's evaluation panics, stack depth of deeply nested documents; 'argued' obligations carry a written argument only: for them the rule guarantees that no new panic-capable construct or caller appears unreviewed, not that the argument is right. Facts proven at load time are assumed to still hold at run time (no writes to schema-owned declarations after load: C14).",
@@ -38,6 +38,7 @@ func init() {
 		Run: runC03,
 	})
 	c03controls()
+	g4c03controls()
 }
 
 type c03ctx struct {
@@ -1257,6 +1258,7 @@ func (x *c03ctx) runK4() {
 	c := x.c
 	unprot := x.unprotected()
 	n := 0
+	evalBy := map[*ssa.Function]int{}
 	for _, f := range x.fns {
 		for _, ci := range core.Calls(f) {
 			o := core.CalleeObj(ci)
@@ -1270,7 +1272,31 @@ func (x *c03ctx) runK4() {
 			case c03xpathTotal[name]:
 				c.OK("K4", key, pos, "does not evaluate (compilation errors are returned; Select/Current only build or read the iterator)")
 			case c03xpathEval[name]:
+				// an evaluation inside an iterator closure / unexported helper that is only ever invoked by exported
+				// functions is an evaluation by each of these exported functions (one obligation per owner and site)
+				if owners := x.k4owners(f); len(owners) > 0 {
+					for _, w := range owners {
+						n++
+						evalBy[w]++
+						wkey := core.FuncKey(w) + " calls xpath." + name
+						via := " (the call sits in " + core.FuncKey(f) + ", which only " + core.FuncKey(w) + " and other exported functions invoke)"
+						switch {
+						case c03deferRecoverDominates(f, ci):
+							c.OK("K4", wkey, pos, "dominated by a deferred recover in the same function"+via)
+						case !x.k4unprotectedVia(w, f):
+							c.OK("K4", wkey, pos, "every call chain from the entry points passes a deferred recover before this evaluation"+via)
+						default:
+							chain := []string{core.FuncKey(f), core.FuncKey(w)}
+							for g := w; unprot[g] != g && unprot[g] != nil && len(chain) < 12; g = unprot[g] {
+								chain = append(chain, core.FuncKey(unprot[g]))
+							}
+							c.Bad("K4", wkey, pos, "the xpath engine reports evaluation errors by panicking (e.g. numeric comparison against empty text) and no recover() protects the chain "+strings.Join(chain, " <- "))
+						}
+					}
+					continue
+				}
 				n++
+				evalBy[f]++
 				if c03deferRecoverDominates(f, ci) {
 					c.OK("K4", key, pos, "dominated by a deferred recover in the same function")
 					continue
@@ -1290,8 +1316,21 @@ func (x *c03ctx) runK4() {
 		}
 	}
 	c.Floor("K4", 4, "xpath API calls in idr/query.go and navigator.go")
-	if n < 4 {
-		c.Unresolved("K4", "xpath evaluation sites", fmt.Sprintf("only %d evaluating call(s) found; MatchAny/MatchAll/MatchSingle are expected to evaluate", n))
+	// anchor by role: each exported query wrapper of package idr (exported API, looked up by name) evaluates
+	var missing []string
+	for _, want := range []string{"MatchAll", "MatchAny", "MatchSingle"} {
+		found := false
+		for w, k := range evalBy {
+			if k > 0 && w.Parent() == nil && w.Signature.Recv() == nil && w.Name() == want && w.Pkg != nil && w.Pkg.Pkg.Name() == "idr" {
+				found = true
+			}
+		}
+		if !found {
+			missing = append(missing, want)
+		}
+	}
+	if n < 3 || len(missing) > 0 {
+		c.Unresolved("K4", "xpath evaluation sites", fmt.Sprintf("only %d evaluating call(s) found; MatchAny/MatchAll/MatchSingle are expected to evaluate (none found for: %s)", n, strings.Join(missing, ", ")))
 	}
 }
 
